@@ -31,7 +31,13 @@ RULE = ("elevation rasters <= 64 cells (quick) / <= 900 (thorough) of dtype int3
         "image of -9999, random) with nodata holes. unlimited fill depth is requested in every documented spelling: "
         "max_depth omitted (default), -1.0, or any other negative number (python int or float: -1, -2, -0.5, -1e-9, "
         "-9999, -1e300, -inf, random negative ints / floats of any magnitude), through fill_depressions (both "
-        "applications) and from_dem; all are judged against the unlimited-fill model / certificate / minimax oracle")
+        "applications) and from_dem; all are judged against the unlimited-fill model / certificate / minimax oracle. "
+        "float32 / float64 DEMs whose VALID cells lie next to a finite nodata value (-9999 also as the omitted default, 0, "
+        "-32768, +-1, 255, 32767, +-1e20, 9.97e36, +-float32 max, -9999.9 / 0.1 / random values that float32 cannot "
+        "represent, random integers): whole surfaces in steps of h around nodata (cells on both sides) or ordinary surfaces "
+        "with 1..4 such cells, h = 1..1024 ulp, 1e-9..1e-3 relative, absolute 1e-9..0.3 (around 0: 1e-10..1e-6, 2**-40.. "
+        "2**-20, 1e-30..1e-12); a cell is nodata iff it holds the nodata value (float32 raster and a value single precision "
+        "cannot represent: iff it holds the float32 image of the value, which is what the interpreted library decides)")
 
 DTYPES = ["int32", "float32", "float64"]
 NARROW = ["uint8", "uint16", "int8", "int16"]
@@ -475,6 +481,151 @@ def gen_narrow_case(rng, max_cells, max_side):
     return desc
 
 
+# ----------------------------------------------------------------------------------------------
+# float DEMs whose VALID cells lie next to the nodata value (a cell is nodata only if it HOLDS the nodata value)
+# ----------------------------------------------------------------------------------------------
+F32MAX = 3.4028234663852886e38
+# finite nodata values in use for float rasters: the default, 0, integer sentinels, large fill values (1e20, the
+# netCDF default fill 9.96920996838687e36, +-float32 max) and values single precision cannot represent (1e20, -9999.9,
+# 0.1: a float32 raster then holds the float32 image of the value in its nodata cells)
+NEAR_NODATA = [-9999.0, -9999.0, -9999.0, -9999.0, 0.0, 0.0, 0.0, -32768.0, -1.0, 1.0, 32767.0, 255.0, 1e20, -1e20,
+               -9999.9, 0.1, 9.96920996838687e36, F32MAX, -F32MAX]
+
+
+def dt_image(dtype, x):
+    """the value of `dtype` nearest to x, as a python float"""
+    with np.errstate(over="ignore"):
+        return float(np.dtype(dtype).type(x))
+
+
+def ulp_step(dtype, x, k):
+    """k representable values of `dtype` above (k > 0) / below (k < 0) x"""
+    t = np.dtype(dtype).type
+    v, d = t(x), t(np.inf if k > 0 else -np.inf)
+    with np.errstate(over="ignore"):
+        for _ in range(abs(k)):
+            v = np.nextafter(v, d)
+    return float(v)
+
+
+def near_value(dtype, nd_t, m, h):
+    """the value of `dtype` at nd_t + m*h (m != 0), never the nodata image itself and always finite: an offset below
+    the resolution of the dtype becomes min(|m|, 4) ulps, an overflow is mirrored to the other side"""
+    for s in (1, -1):
+        v = dt_image(dtype, nd_t + s * m * h) if math.isfinite(nd_t + s * m * h) else float("inf")
+        if math.isfinite(v) and v != nd_t:
+            return v
+        k = max(1, min(abs(m), 4)) * (1 if s * m > 0 else -1)
+        v = ulp_step(dtype, nd_t, k)
+        if math.isfinite(v) and v != nd_t:
+            return v
+    raise AssertionError("generator: no finite neighbour of the nodata value")
+
+
+def gen_near_step(rng, dtype, nd_t):
+    """distance scale h > 0 of the near-nodata values + family: a few ulps of the nodata image, a relative offset
+    1e-9 .. 1e-3, or an absolute offset; around 0 only absolute offsets exist (1e-10 .. 1e-6, powers of two, tiny)"""
+    if nd_t == 0.0:
+        u = rng.random()
+        if u < 0.6:
+            return 10.0 ** -rng.uniform(6.0, 10.0), "abs"
+        if u < 0.8:
+            return 2.0 ** -rng.randint(20, 40), "abs-dyadic"
+        return rng.choice([1e-12, 1e-20, 1e-30]), "abs-tiny"
+    u = rng.random()
+    if u < 0.3:
+        ulp = max(abs(ulp_step(dtype, nd_t, 1) - nd_t) if math.isfinite(ulp_step(dtype, nd_t, 1)) else 0.0,
+                  abs(ulp_step(dtype, nd_t, -1) - nd_t) if math.isfinite(ulp_step(dtype, nd_t, -1)) else 0.0)
+        return rng.choice([1, 1, 2, 3, 8, 64, 1024]) * ulp, "ulps"
+    if u < 0.75:
+        return abs(nd_t) * 10.0 ** -rng.uniform(3.0, 9.0), "rel"
+    return min(abs(nd_t), 1.0) * 10.0 ** -rng.uniform(0.5, 9.0), "abs"
+
+
+def gen_near_case(rng, max_cells, max_side):
+    """float32 / float64 raster with a finite nodata value whose valid cells lie next to that value, on either side:
+    'surface' = the whole surface in steps of h around nodata (level z0 at +h, the level below at -h), 'sparse' = an
+    ordinary surface with a few cells next to nodata (a trench below -9999, a spike next to 1e20)"""
+    shape = gen_shape(rng, max_cells, max_side)
+    n = shape[0] * shape[1]
+    z, fam = gen_surface(rng, shape)
+    mask, mfam = gen_mask(rng, shape)
+    if all(mask):
+        mask[rng.randrange(n)] = False
+    dtype = rng.choice(["float32", "float64"])
+    u = rng.random()
+    if u < 0.85:
+        nodata = rng.choice(NEAR_NODATA)
+    elif u < 0.93:
+        nodata = float(rng.randint(-40000, 40000))
+    else:
+        nodata = rng.uniform(-1.0, 1.0) * 10.0 ** rng.randint(-3, 6)    # (float32: not representable)
+    nd_t = dt_image(dtype, nodata)      # what a cell of the raster holds when it holds the nodata value
+    h, hfam = gen_near_step(rng, dtype, nd_t)
+    if rng.random() < 0.55:
+        z0 = z[rng.randrange(n)]
+        vals = [near_value(dtype, nd_t, 2 * (v - z0) + 1, h) for v in z]
+        vfam = "near-nodata-surface"
+    else:
+        vals, _ = gen_values(rng, z, dtype)
+        vals = [dt_image(dtype, v) for v in vals]
+        vals = [v if v != nd_t else dt_image(dtype, v + 1.0) for v in vals]
+        for _ in range(rng.randint(1, 4)):
+            vals[rng.randrange(n)] = near_value(dtype, nd_t, rng.choice([-3, -2, -1, -1, 1, 1, 2, 3]), h)
+        vfam = "near-nodata-sparse"
+    assert all(math.isfinite(v) and v != nd_t and v != nodata for v in vals), "generator: valid cell holds nodata"
+    data = [(nodata if mask[i] else vals[i]) for i in range(n)]
+    valid_idx = [i for i in range(n) if not mask[i]]
+    outlets, pits = gen_outlets(rng, valid_idx)
+    desc = {"op": "fill_depressions", "shape": list(shape), "dtype": dtype, "elevtn": data, "nodata": nodata,
+            "connectivity": rng.choice([4, 8]), "outlets": outlets, "idxs_pit": pits,
+            "family": f"{fam}/{mfam}/{vfam}", "near": hfam}
+    if nodata == -9999.0 and rng.random() < 0.3:
+        desc["nodata_default"] = True
+    if rng.random() < 0.1 and pits is None:
+        desc["elv_max"] = float(rng.choice([vals[i] for i in valid_idx]))
+    if rng.random() < 0.3:
+        desc["max_depth"] = gen_neg_depth(rng)
+    return desc
+
+
+def count_near(ctx, desc, elev, nodata, valid_l):
+    """how close do the valid cells of a float raster come to its (finite) nodata value?"""
+    if elev.dtype.kind != "f" or not math.isfinite(nodata):
+        return
+    nd_t = dt_image(elev.dtype, nodata)
+    if not math.isfinite(nd_t):
+        return
+    if nd_t != nodata:
+        ctx.count("feature:near-nodata:nodata value not representable in the dtype of the raster (%s)" % elev.dtype.name)
+        if not all(valid_l):
+            ctx.count("feature:near-nodata:nodata cells hold the %s image of a value the dtype cannot represent" % elev.dtype.name)
+    vv = [v for v, ok in zip(elev.ravel().tolist(), valid_l) if ok and math.isfinite(v)]
+    if not vv:
+        return
+    ref = _frac(nd_t)
+    below = [ref - _frac(v) for v in vv if _frac(v) < ref]
+    above = [_frac(v) - ref for v in vv if _frac(v) > ref]
+    dist = min(below + above)
+    scale = abs(ref) if ref != 0 else Fraction(1, 100)       # around 0: absolute bands 1e-5 .. 1e-11
+    name = elev.dtype.name
+    if desc.get("near"):
+        ctx.count("near-nodata:offsets:" + desc["near"])
+    for band, lim in (("1e-3", Fraction(1, 10**3)), ("1e-5", Fraction(1, 10**5)), ("1e-7", Fraction(1, 10**7)),
+                      ("1e-9", Fraction(1, 10**9))):
+        if dist <= lim * scale:
+            ctx.count("feature:near-nodata:valid cell within %s*|nodata| of nodata (nodata 0: %s/100)" % (band, band))
+            ctx.count("feature:near-nodata:valid cell within %s*|nodata| of nodata (nodata 0: %s/100):%s" % (band, band, name))
+    if dist <= Fraction(1, 10**5) * scale:
+        ctx.count("feature:near-nodata:nodata " + ("0" if ref == 0 else "-9999" if nodata == -9999.0 else
+                                                    "|x| >= 1e19" if abs(ref) >= 10**19 else "other"))
+    ulp = min(abs(_frac(ulp_step(elev.dtype, nd_t, k)) - ref) for k in (1, -1) if math.isfinite(ulp_step(elev.dtype, nd_t, k)))
+    if ref != 0 and dist <= 4 * ulp:
+        ctx.count("feature:near-nodata:valid cell within 4 ulp of nodata:" + name)
+    if below and above and min(below) <= Fraction(1, 10**5) * scale and min(above) <= Fraction(1, 10**5) * scale:
+        ctx.count("feature:near-nodata:valid cells on both sides of nodata within 1e-5")
+
+
 def count_narrow(ctx, desc, elev, nodata, valid_l):
     if desc["dtype"] not in NARROW:
         return
@@ -680,6 +831,7 @@ def run_case(ctx, desc, with_from_dem=False, oracle=True):
     if math.isnan(nodata) and any(nod_l):
         ctx.count("feature:nan-nodata-cells")
     count_narrow(ctx, desc, elev, nodata, valid_l)
+    count_near(ctx, desc, elev, nodata, valid_l)
     if nfilled:
         ctx.count("feature:filled-case")
         ctx.count("filled-cells", nfilled)
@@ -1058,6 +1210,24 @@ def corner_cases():
             out[-1]["narrow"] = "default" if ndv == -9999.0 else "unrepresentable"
             if nd is None:
                 out[-1]["nodata_default"] = True
+    # valid cells next to the nodata value: a trench deeper than 9999 m in a bathymetry raster with nodata -9999 (a
+    # nodata hole beside it), values of a few 1e-9 around nodata 0, the float32 neighbours of 1e20 / of the float32
+    # image of -9999.9; every such cell is valid: it is filled / drained like any other cell
+    for dtype in ("float32", "float64"):
+        for conn in (4, 8):
+            for outlets in ("edge", "min"):
+                mk((4, 5), dtype, [-9990.0, -9991.0, -9990.0, -9992.0, -9990.0,
+                                   -9991.0, dt_image(dtype, -9998.93), -9999.0, dt_image(dtype, -9999.06), -9990.5,
+                                   -9990.0, dt_image(dtype, -9999.5), dt_image(dtype, -9998.5), -9997.0, -9991.0,
+                                   -9990.0, -9990.5, -9991.0, -9990.0, -9990.0], conn=conn, outlets=outlets)
+                mk((3, 4), dtype, [1.0, 1.0, 1.0, 1.0, 1.0, dt_image(dtype, 3e-9), dt_image(dtype, -2e-9), 0.5, 1.0, 0.0, 1.0, 1.0],
+                   nodata=0.0, conn=conn, outlets=outlets)
+                for nd in (1e20, -9999.9):
+                    t = dt_image(dtype, nd)
+                    mk((3, 3), dtype, [ulp_step(dtype, t, 3), ulp_step(dtype, t, 2), ulp_step(dtype, t, 3),
+                                       ulp_step(dtype, t, 2), ulp_step(dtype, t, -1), ulp_step(dtype, t, 1),
+                                       ulp_step(dtype, t, 3), ulp_step(dtype, t, 2), ulp_step(dtype, t, 3)],
+                       nodata=nd, conn=conn, outlets=outlets)
     # all nodata with edge outlets: nothing to do
     mk((2, 2), "float32", [-9999.0] * 4)
     mk((1, 1), "float32", [3.0])
@@ -1116,6 +1286,13 @@ def run(ctx):
     # narrow integer DEMs over the whole range of their dtype; default / unrepresentable / in-range nodata
     for k in range((160 if quick else 1200) * ctx.escalate):
         desc = gen_narrow_case(rng, 64, 8) if quick else gen_narrow_case(rng, 120, 11)
+        run_case(ctx, desc, with_from_dem=True, oracle=True)
+        if len(ctx.cases) >= 200:
+            ctx.flush()
+    ctx.flush()
+    # float DEMs whose valid cells lie next to the (finite) nodata value, on either side of it
+    for k in range((200 if quick else 1500) * ctx.escalate):
+        desc = gen_near_case(rng, 64, 8) if quick else gen_near_case(rng, 120, 11)
         run_case(ctx, desc, with_from_dem=True, oracle=True)
         if len(ctx.cases) >= 200:
             ctx.flush()
